@@ -581,7 +581,7 @@ fn wrap_script(r: &mut Rng, _index: u64, _tier: Tier) -> (CaseCfg, Vec<Step>) {
     (cfg, s)
 }
 
-fn general(_r: &mut Rng) -> Profile {
+pub fn general(_r: &mut Rng) -> Profile {
     let mut p = Profile::default();
     p.w_gate = 1;
     p
@@ -607,7 +607,7 @@ fn c01_cancel_heavy(r: &mut Rng) -> Profile {
 }
 
 
-fn replay_heavy(r: &mut Rng) -> Profile {
+pub fn replay_heavy(r: &mut Rng) -> Profile {
     let mut p = Profile::default();
     p.name = "replay-heavy";
     p.w_pub = [2, 14, 14];
@@ -644,7 +644,7 @@ fn qos2_heavy(r: &mut Rng) -> Profile {
     p
 }
 
-fn session_mix(r: &mut Rng) -> Profile {
+pub fn session_mix(r: &mut Rng) -> Profile {
     let mut p = replay_heavy(r);
     p.name = "session-mix";
     p.w_disconnect = 5;
@@ -659,7 +659,7 @@ fn session_mix(r: &mut Rng) -> Profile {
     p
 }
 
-fn window_heavy(r: &mut Rng) -> Profile {
+pub fn window_heavy(r: &mut Rng) -> Profile {
     let mut p = replay_heavy(r);
     p.name = "window-heavy";
     p.rm_choices = vec![Some(1), Some(2), Some(3), Some(7), Some(8), Some(9), Some(16), Some(65535), None];
@@ -770,7 +770,7 @@ fn keepalive_mix(r: &mut Rng) -> Profile {
     p
 }
 
-fn dead_handle(r: &mut Rng) -> Profile {
+pub fn dead_handle(r: &mut Rng) -> Profile {
     let mut p = Profile::default();
     p.name = "dead-handle";
     // limits on both sides of the 16-bit boundary (none of them restricts anything here)
